@@ -141,6 +141,11 @@ class PowerSpace(StructuredDomain):
             dists = np.log(dists)
         binsz_min = np.max(np.diff(dists))
         nbin_max = int((dists[-1]-dists[0])/binsz_min)+2
+        # The last inner bin must reach beyond the last inner k length,
+        # otherwise it stays empty.
+        if nbin_max > 3 and \
+           (dists[-1]-dists[0])/(nbin_max-2) <= dists[-1]-dists[-2]:
+            nbin_max -= 1
         if nbin is None:
             nbin = nbin_max
         if nbin < 3:
